@@ -482,10 +482,10 @@ pub fn run(s: &Session) {
     s.assume("no particular ranking between values is asserted, only the order laws; for equality only a necessary condition (same kind, constructor index, arity, bytes) and a sufficient one (identical up to def/indef flags and constructor-tag form) are asserted; how integers of different representation compare is not judged");
 
     s.foreach("boundary-values", boundary_values(), false, |p, obs| check_roundtrip(p, obs));
-    s.forall("roundtrip-and-chunking", s.pick(30_000, 1_000_000), || pd::pd(4), |p, obs| check_roundtrip(p, obs));
+    s.forall("roundtrip-and-chunking", s.pick(100_000, 3_000_000), || pd::pd(4), |p, obs| check_roundtrip(p, obs));
     s.forall(
         "any-chunking-decodes",
-        s.pick(10_000, 300_000),
+        s.pick(50_000, 1_000_000),
         || {
             (pd::pd(3), pd::bytes_leaf(), prop::collection::vec(prop::collection::vec(any::<u16>(), 0..5), 1..4))
                 .prop_map(|(v, b, cuts)| Rechunk { value: PD::Array { indef: false, items: vec![b, v] }, cuts })
@@ -494,7 +494,7 @@ pub fn run(s: &Session) {
     );
     s.forall(
         "order-laws",
-        s.pick(30_000, 1_000_000),
+        s.pick(100_000, 3_000_000),
         || {
             (pd::pd(4), pd::edit(), pd::edit(), any::<bool>()).prop_map(|(a, e1, e2, chain)| Triple { a, e1, e2, chain })
         },
@@ -505,13 +505,13 @@ pub fn run(s: &Session) {
     // draws are frequently equal or neighbours, across and within kinds
     s.forall(
         "order-laws-small-world",
-        s.pick(30_000, 1_000_000),
+        s.pick(100_000, 3_000_000),
         || (small_world(), small_edit(), small_edit(), any::<bool>()).prop_map(|(a, e1, e2, chain)| Triple { a, e1, e2, chain }),
         check_order,
     );
     s.forall(
         "order-laws-integers",
-        s.pick(20_000, 500_000),
+        s.pick(100_000, 2_000_000),
         || {
             let e = || {
                 prop_oneof![
@@ -528,7 +528,7 @@ pub fn run(s: &Session) {
     );
     s.forall(
         "flag-invariance",
-        s.pick(10_000, 300_000),
+        s.pick(50_000, 1_000_000),
         || (pd::pd(4), any::<u64>(), pd::edit()).prop_map(|(a, mask, e)| FlagCase { a, mask, e }),
         check_flags,
     );
